@@ -120,6 +120,28 @@ func genControl(rng *mrand.Rand, n int, tier string, w *bufio.Writer) {
 				genDeployLine(rng, w, name, gs, hosts, prefixes)
 			}
 			fmt.Fprintf(w, "list\nsnapshot\nprobing\n")
+			// requests aimed at what the last deploy of this service bound (plain and over TLS)
+			if gs.last != nil && chance(rng, 60) {
+				h := ""
+				if len(gs.last.hosts) > 0 {
+					h = pick(rng, gs.last.hosts)
+				}
+				h = strings.Replace(h, "*", "w", 1)
+				p := "/"
+				if len(gs.last.prefixes) > 0 {
+					p = "/" + strings.Trim(pick(rng, gs.last.prefixes), "/")
+				}
+				uri := strings.TrimRight(p, "/") + pick(rng, []string{"/", "/z", ""})
+				if uri == "" {
+					uri = "/"
+				}
+				if u, err := url.ParseRequestURI(uri); err == nil {
+					for _, tlsOn := range []bool{false, true} {
+						fmt.Fprintf(w, "req method=%s host=%s path=%s uri=%s tls=%s cookies=L\n", hexB([]byte("GET")), hexB([]byte(h)),
+							hexB([]byte(u.Path)), hexB([]byte(uri)), b2s(tlsOn))
+					}
+				}
+			}
 			q := 2 + rng.IntN(4)
 			for j := 0; j < q; j++ {
 				host := pick(rng, ctlReqHosts)
